@@ -15,6 +15,8 @@
 #include <string.h>
 #include <stdlib.h>
 #include <time.h>
+#include <signal.h>
+#include <sys/stat.h>
 
 #define NT_MAX 32
 static int NT = 16;
@@ -227,6 +229,92 @@ static void run_keys(uint64_t seed, tscript *t, int tid, vh_rng *yr)
     }
 }
 
+/* ---------- process-wide state the library has no business changing ---------- */
+typedef struct { struct sigaction sa[65]; sigset_t mask; unsigned short fpcw; unsigned mxcsr; } pstate;
+static void pstate_take(pstate *p)
+{
+    int s; memset(p, 0, sizeof(*p));
+    for (s = 1; s < 65; ++s) if (s != SIGKILL && s != SIGSTOP && (s < 32 || s > 34)) sigaction(s, NULL, &p->sa[s]);
+    pthread_sigmask(SIG_BLOCK, NULL, &p->mask);
+    __asm__ volatile("fnstcw %0" : "=m"(p->fpcw));
+    __asm__ volatile("stmxcsr %0" : "=m"(p->mxcsr));
+}
+static const char *pstate_diff(const pstate *a, const pstate *b, int *which)
+{
+    int s;
+    for (s = 1; s < 65; ++s) if (a->sa[s].sa_handler != b->sa[s].sa_handler || a->sa[s].sa_flags != b->sa[s].sa_flags) { *which = s; return "signal-disposition-changed"; }
+    if (memcmp(&a->mask, &b->mask, sizeof(a->mask))) { *which = 0; return "signal-mask-changed"; }
+    if ((a->mxcsr & 0xFFC0u) != (b->mxcsr & 0xFFC0u) || a->fpcw != b->fpcw) { *which = 0; return "floating-point-control-state-changed"; }
+    return NULL;
+}
+
+/* ---------- persistent workers (W5): the same threads live through several phases; between phases the main thread re-keys
+   (or cleans up and re-creates) the shared read-only objects.  Anything a thread remembers about an object from an earlier
+   phase (per-thread caches keyed by address) shows up as output for a stale key. ---------- */
+enum { PH_BLOCKS = 24, PH_PHASES = 6 };
+static struct { uint8_t in[PH_BLOCKS * 16], tw[PH_BLOCKS * 16]; uint8_t want[CIPH_N][2][PH_BLOCKS * 16], want_sb[3][32]; int bad[NT_MAX]; pthread_barrier_t b; int stop; } PW;
+static void *persist_thread(void *p)
+{
+    int tid = (int)(intptr_t)p, ph, k; uint8_t out[PH_BLOCKS * 16];
+    for (ph = 0; ph < PH_PHASES; ++ph) {
+        pthread_barrier_wait(&PW.b);                 /* objects are keyed for this phase */
+        for (k = 0; k < CIPH_N; ++k) {
+            const vh_cipher *c = &vh_ciphers[k]; size_t n = PH_BLOCKS * c->bb;
+            enter_lib(tid);
+            if (!c->par_encrypt(out, PW.in, PW.tw, n, &SPAR[k]) || memcmp(out, PW.want[k][0], n)) PW.bad[tid]++;
+            if (c->par_decrypt && (!c->par_decrypt(out, PW.in, PW.tw, n, &SPAR[k]) || memcmp(out, PW.want[k][1], n))) PW.bad[tid]++;
+            leave_lib();
+        }
+        enter_lib(tid);
+        skinny128_ecb_encrypt(out, PW.in, &SK128); skinny128_ecb_decrypt(out + 16, PW.in, &SK128); if (memcmp(out, PW.want_sb[0], 32)) PW.bad[tid]++;
+        skinny64_ecb_encrypt(out, PW.in, &SK64); skinny64_ecb_decrypt(out + 8, PW.in, &SK64); if (memcmp(out, PW.want_sb[1], 16)) PW.bad[tid]++;
+        mantis_ecb_crypt(out, PW.in, &SMK); mantis_ecb_crypt_tweaked(out + 8, PW.in + 8, PW.tw, &SMK); if (memcmp(out, PW.want_sb[2], 16)) PW.bad[tid]++;
+        leave_lib();
+        pthread_barrier_wait(&PW.b);                 /* phase done: the main thread may re-key now */
+    }
+    return NULL;
+}
+static int run_persistent(uint64_t seed, int cap, pthread_t *th)
+{
+    vh_rng r; int i, k, ph, bad = 0; uint8_t key[48], tw8[8]; unsigned klen128 = 0, klen64 = 0, rounds = 0; int mode = 0;
+    vh_rng_seed(&r, seed, 0x18, 4242);
+    memset(&PW, 0, sizeof(PW));
+    vh_rand_bytes(&r, PW.in, sizeof(PW.in)); vh_rand_bytes(&r, PW.tw, sizeof(PW.tw));
+    pthread_barrier_init(&PW.b, NULL, (unsigned)NT + 1);
+    vh_set_cap(cap);
+    for (k = 0; k < CIPH_N; ++k) { memset(&SPAR[k], 0, sizeof(SPAR[k])); vh_ciphers[k].par_init(&SPAR[k]); }
+    for (i = 0; i < NT; ++i) pthread_create(&th[i], NULL, persist_thread, (void *)(intptr_t)i);
+    for (ph = 0; ph < PH_PHASES; ++ph) {
+        /* new key material; the key length (= round count) stays the same in most phases so that a stale entry would look valid */
+        vh_rand_bytes(&r, key, 48); vh_rand_bytes(&r, tw8, 8);
+        if (ph == 0 || !vh_below(&r, 4)) { klen128 = 16 * (1 + vh_below(&r, 3)); klen64 = 8 * (1 + vh_below(&r, 3)); rounds = 5 + vh_below(&r, 4); mode = (int)vh_below(&r, 2); }
+        if (ph && !vh_below(&r, 3)) for (k = 0; k < CIPH_N; ++k) { vh_ciphers[k].par_cleanup(&SPAR[k]); vh_ciphers[k].par_init(&SPAR[k]); }   /* same address, new object */
+        vh_ciphers[CIPH_S128].par_set_key(&SPAR[CIPH_S128], key, klen128, 0, 0);
+        vh_ciphers[CIPH_S64].par_set_key(&SPAR[CIPH_S64], key, klen64, 0, 0);
+        vh_ciphers[CIPH_MANTIS].par_set_key(&SPAR[CIPH_MANTIS], key, 16, rounds, mode ? MANTIS_ENCRYPT : MANTIS_DECRYPT);
+        skinny128_set_key(&SK128, key, klen128); skinny64_set_key(&SK64, key, klen64);
+        mantis_set_key(&SMK, key, 16, rounds, mode ? MANTIS_ENCRYPT : MANTIS_DECRYPT); mantis_set_tweak(&SMK, tw8, 8);
+        /* expected results from the single-block functions under schedules made from scratch */
+        { Skinny128Key_t a; Skinny64Key_t b; MantisKey_t m; int q;
+          skinny128_set_key(&a, key, klen128); skinny64_set_key(&b, key, klen64); mantis_set_key(&m, key, 16, rounds, mode ? MANTIS_ENCRYPT : MANTIS_DECRYPT);
+          for (q = 0; q < PH_BLOCKS; ++q) {
+              skinny128_ecb_encrypt(PW.want[CIPH_S128][0] + 16 * q, PW.in + 16 * q, &a); skinny128_ecb_decrypt(PW.want[CIPH_S128][1] + 16 * q, PW.in + 16 * q, &a);
+              skinny64_ecb_encrypt(PW.want[CIPH_S64][0] + 8 * q, PW.in + 8 * q, &b); skinny64_ecb_decrypt(PW.want[CIPH_S64][1] + 8 * q, PW.in + 8 * q, &b);
+              mantis_ecb_crypt_tweaked(PW.want[CIPH_MANTIS][0] + 8 * q, PW.in + 8 * q, PW.tw + 8 * q, &m);
+          }
+          skinny128_ecb_encrypt(PW.want_sb[0], PW.in, &a); skinny128_ecb_decrypt(PW.want_sb[0] + 16, PW.in, &a);
+          skinny64_ecb_encrypt(PW.want_sb[1], PW.in, &b); skinny64_ecb_decrypt(PW.want_sb[1] + 8, PW.in, &b);
+          mantis_set_tweak(&m, tw8, 8); mantis_ecb_crypt(PW.want_sb[2], PW.in, &m); mantis_ecb_crypt_tweaked(PW.want_sb[2] + 8, PW.in + 8, PW.tw, &m);
+        }
+        pthread_barrier_wait(&PW.b);
+        pthread_barrier_wait(&PW.b);
+    }
+    for (i = 0; i < NT; ++i) { pthread_join(th[i], NULL); bad += PW.bad[i]; }
+    for (k = 0; k < CIPH_N; ++k) vh_ciphers[k].par_cleanup(&SPAR[k]);
+    pthread_barrier_destroy(&PW.b);
+    return bad;
+}
+
 /* ---------- orchestration ---------- */
 typedef struct { int tid; uint64_t seed; int workload; int bulk; chist *ch; phist *ph; tscript got, want; vh_rng yr; } targ;
 static targ TA[NT_MAX];
@@ -257,7 +345,8 @@ int main(int argc, char **argv)
 {
     uint64_t rep, reps; int i, control;
     pthread_t th[NT_MAX];
-    static const char *const wname[4] = {"distinct-objects", "shared-read-only-objects", "init-cleanup-storm", "key-setup-storm"};
+    static const char *const wname[5] = {"distinct-objects", "shared-read-only-objects", "init-cleanup-storm", "key-setup-storm", "persistent-workers-with-rekeying"};
+    pstate ps0, ps1;
     vh_init(argc, argv);
     NT = atoi(vh_getarg("threads", "16")); if (NT > NT_MAX) NT = NT_MAX;
     control = atoi(vh_getarg("control", "0"));
@@ -277,9 +366,13 @@ int main(int argc, char **argv)
         int bad = 0;
         for (i = 0; i < NT; ++i) { TA[i].tid = i; TA[i].workload = 2; TA[i].seed = vh_seed * 977 + 5; TA[i].got.cap = TA[i].want.cap = 1 << 16; TA[i].got.out = malloc(1 << 16); TA[i].want.out = malloc(1 << 16);
                                    TA[i].got.n = TA[i].want.n = 0; TA[i].got.rets = TA[i].want.rets = 0; TA[i].got.nret = TA[i].want.nret = 0; vh_rng_seed(&TA[i].yr, vh_seed, 0x1A, (uint64_t)i); }
+        pstate_take(&ps0);
         pthread_barrier_init(&bar, NULL, (unsigned)NT);
         for (i = 0; i < NT; ++i) pthread_create(&th[i], NULL, thread_main, &TA[i]);
         for (i = 0; i < NT; ++i) pthread_join(th[i], NULL);
+        pstate_take(&ps1);
+        { int which = 0; const char *pd = pstate_diff(&ps0, &ps1, &which);
+          if (pd) { char key[160], d[120]; snprintf(key, sizeof(key), "C18:first-concurrent-init:process-%s", pd); snprintf(d, sizeof(d), "{\"signal\":%d}", which); vh_violation(key, d, d); } }
         work(&TA[0], &TA[0].want, 0);
         for (i = 0; i < NT; ++i) {
             if (TA[i].got.n != TA[0].want.n || TA[i].got.rets != TA[0].want.rets || memcmp(TA[i].got.out, TA[0].want.out, TA[i].got.n)) bad++;
@@ -299,10 +392,22 @@ int main(int argc, char **argv)
     for (i = 0; i < CIPH_N; ++i) { maxbe[i] = vh_max_backend(&vh_ciphers[i]); if (maxbe[i] < 0) { printf("{\"type\":\"inconclusive\",\"reason\":\"cannot identify back end\"}\n"); return 2; } }
     for (i = 0; i < NT; ++i) { TA[i].ch = malloc(sizeof(chist)); TA[i].ph = malloc(sizeof(phist)); TA[i].got.cap = TA[i].want.cap = 1 << 18; TA[i].got.out = malloc(1 << 18); TA[i].want.out = malloc(1 << 18); }
     for (rep = vh_first + vh_shard; rep < vh_first + reps; rep += vh_nshards) {
-        int workload = (int)(rep % 4), cap = (int)((rep / 4) % 3);
+        int workload = (int)(rep % 5), cap = (int)((rep / 5) % 3);
         vh_rng r; uint64_t hh = VH_HASH_INIT;
         vh_rng_seed(&r, vh_seed, 0x18, rep);
         vh_set_cap(cap);                                   /* written only here, before the threads exist */
+        pstate_take(&ps0);
+        if (workload == 4) {
+            int nb; in_lib = 0; ticket = 0; memset(order_log, 0xFF, sizeof(order_log));
+            hh ^= rep * 977 + vh_seed;
+            nb = run_persistent(vh_rand(&r), cap, th);
+            VH_COUNT("thread_runs", NT); VH_COUNT("rekey_phases_with_live_worker_threads", PH_PHASES);
+            if (nb) {
+                char d[200]; snprintf(d, sizeof(d), "{\"workload\":\"%s\",\"repetition\":%llu,\"backend_cap\":%d,\"wrong_results\":%d}", wname[4], (unsigned long long)rep, cap, nb);
+                vh_sh->cur_case = rep; vh_violation("C18:persistent-workers-with-rekeying:thread-result-differs-from-sequential", d, d);
+            }
+            goto rep_done;
+        }
         if (workload == 1) {
             uint8_t key[48], tw[16];
             vh_rand_bytes(&r, key, 48); vh_rand_bytes(&r, tw, 16);
@@ -314,7 +419,7 @@ int main(int argc, char **argv)
         }
         for (i = 0; i < NT; ++i) {
             targ *a = &TA[i];
-            a->tid = i; a->workload = workload; a->seed = vh_rand(&r); a->bulk = (rep % 12 < 2);    /* every third repetition of W1/W2 adds requests of 64 KiB .. 260 KiB */
+            a->tid = i; a->workload = workload; a->seed = vh_rand(&r); a->bulk = (workload < 2 && (rep / 5) % 3 == 0);    /* every third repetition of W1/W2 adds requests of 64 KiB .. 260 KiB */
             if (workload == 1) a->seed = vh_seed * 131 + rep;      /* all threads do the same reads on the shared objects with private buffers */
             vh_rng_seed(&a->yr, a->seed, 0x19, (uint64_t)i);
             if (workload == 0) {
@@ -342,6 +447,11 @@ int main(int argc, char **argv)
                 vh_violation(key, d, d);
             }
         }
+    rep_done:
+        pstate_take(&ps1);
+        { int which = 0; const char *pd = pstate_diff(&ps0, &ps1, &which);
+          VH_COUNT("process_state_snapshots_compared", 1);
+          if (pd) { char key[160], d[200]; snprintf(key, sizeof(key), "C18:%s:process-%s", wname[workload], pd); snprintf(d, sizeof(d), "{\"workload\":\"%s\",\"repetition\":%llu,\"signal\":%d}", wname[workload], (unsigned long long)rep, which); vh_sh->cur_case = rep; vh_violation(key, d, d); } }
         { uint64_t s = vh_hash(order_log, 48, VH_HASH_INIT); int k, found = 0; for (k = 0; k < sig_n; ++k) if (sig_set[k] == s) found = 1; if (!found && sig_n < 4096) sig_set[sig_n++] = s; }
         if (vh_distinct(hh)) VH_COUNT("distinct_nontrivial_repetitions", 1);
         { char cn[64]; snprintf(cn, sizeof(cn), "repetitions_%s", wname[workload]); *vh_counter_ref(cn) += 1; }
